@@ -7,6 +7,7 @@
 use crate::ast::{print, E};
 use crate::fw::{guard, Ctx, Meta, Property, Tier};
 use crate::props::c01::{locate, spaces};
+use crate::props::pipeline::{self, Item};
 use crate::shrink::shrink;
 use crate::subj::{compile, start, step, BData, Host, SData, Subject};
 use crate::val::V;
@@ -350,6 +351,89 @@ fn dyn_check<D: Subject + FrameCount>(cx: &mut Ctx, e: &E, iname: &str, input: &
     }
 }
 
+
+// ---- accepted inputs of the C03/C04 token corpora (K1, K2, K4): the same two checks on source text ----
+
+fn static_of_text(src: &str) -> Option<Result<StaticOk, (String, String)>> {
+    let mut d = SData::fresh(Host::none());
+    let (pr, bd) = compile(src, &mut d).ok()?;
+    if pr.get_nodes().is_empty() {
+        // only annotations / whitespace: there is no program
+        return None;
+    }
+    let j = *bd.jump_index();
+    match guard(|| analyse(&d, j)) {
+        Ok(r) => Some(r),
+        Err(p) => Some(Err((format!("panic[{}]", crate::fw::panic_kind(&p)), String::new()))),
+    }
+}
+
+fn dyn_of_text<D: Subject + FrameCount>(src: &str) -> Option<Result<usize, (String, String)>> {
+    match guard(|| conform::<D>(src, &V::Int(5), 2_000)) {
+        Ok(r) => r,
+        Err(p) => Some(Err((format!("panic[{}]", crate::fw::panic_kind(&p)), String::new()))),
+    }
+}
+
+/// failure of a source text: (coarse kind used for shrinking and as signature kind, fine kind for the report);
+/// static first, then dynamic on either implementation. The coarse kind makes every input that fails for one root
+/// cause shrink to the same minimal text (`1+( )`, `--( )`, `(( ))~~` all shrink to `( )`).
+fn text_fail(src: &str) -> Option<(String, String)> {
+    if src.contains(";;") || src.trim().is_empty() {
+        return None;
+    }
+    if let Some(Err((k, d))) = static_of_text(src) {
+        return Some(("static/unbalanced".into(), format!("{} ({})", k, d)));
+    }
+    if let Some(Err((k, d))) = dyn_of_text::<SData>(src) {
+        return Some(("dynamic/unbalanced/simple".into(), format!("{} ({})", k, d)));
+    }
+    if let Some(Err((k, d))) = dyn_of_text::<BData>(src) {
+        return Some(("dynamic/unbalanced/basic".into(), format!("{} ({})", k, d)));
+    }
+    None
+}
+
+fn text_kind(src: &str) -> Option<String> {
+    text_fail(src).map(|x| x.0)
+}
+
+fn check_text(cx: &mut Ctx, src: &str) {
+    if src.contains(";;") {
+        cx.count("token_inputs_with_bare_terminator_excluded", 1);
+        return;
+    }
+    if src.trim().is_empty() {
+        return;
+    }
+    cx.eval();
+    match static_of_text(src) {
+        None => {
+            cx.count("token_inputs_not_accepted", 1);
+            return;
+        }
+        Some(Ok(st)) => {
+            cx.count("states", st.states);
+            cx.count("transitions", st.transitions);
+            cx.count("token_inputs_statically_balanced", 1);
+            cx.nontrivial(src);
+        }
+        Some(Err(_)) => {}
+    }
+    if let Some((kind, fine)) = text_fail(src) {
+        let w = if src.len() <= 64 { pipeline::shrink_text(src, &text_kind, &kind) } else { src.to_string() };
+        let wfine = text_fail(&w).map(|x| x.1).unwrap_or(fine.clone());
+        cx.violation(&kind, &format!("text | {}", pipeline::show(&w)), json!({"mode": "text", "src": w, "first_seen": src, "first_seen_detail": fine, "detail": wfine}));
+    } else {
+        cx.count("traces_validated", 2);
+    }
+}
+
+/// token-corpus inputs used: everything in the thorough tier, everything before the K4 length-6 tier in the quick tier
+fn text_total(tier: Tier) -> u64 {
+    tier.pick(pipeline::total_before_len6(tier), pipeline::total(tier, false))
+}
+
 fn input_by_name(name: &str) -> V {
     for (n, v) in crate::corpus::inputs() {
         if n == name {
@@ -368,13 +452,23 @@ impl Property for C06 {
     }
     fn size(&self, tier: Tier) -> u64 {
         let s = spaces(tier);
-        s.total()
+        s.total() + text_total(tier)
     }
     fn describe(&self, tier: Tier, idx: u64) -> String {
+        if idx >= spaces(tier).total() {
+            return pipeline::show(&pipeline::item_text(&pipeline::item(tier, false, idx - spaces(tier).total())));
+        }
         let (c, i) = locate(tier, idx);
         format!("{}#{}: {}", c.name, i, print(&c.program(i)).unwrap_or_default())
     }
     fn run(&self, tier: Tier, idx: u64, cx: &mut Ctx) {
+        if idx >= spaces(tier).total() {
+            let it = pipeline::item(tier, false, idx - spaces(tier).total());
+            if let Item::Text(..) = it {
+                check_text(cx, &pipeline::item_text(&it));
+            }
+            return;
+        }
         let (c, i) = locate(tier, idx);
         let e = c.program(i);
         cx.eval();
@@ -414,6 +508,12 @@ impl Property for C06 {
     }
     fn replay(&self, d: &Value, cx: &mut Ctx) {
         let src = d["src"].as_str().unwrap_or("").to_string();
+        if d["mode"].as_str() == Some("text") {
+            if let Some(kind) = text_kind(&src) {
+                cx.violation(&kind, &format!("text | {}", pipeline::show(&src)), json!({"mode": "text", "src": src}));
+            }
+            return;
+        }
         if d["mode"].as_str() == Some("static") {
             let mut data = SData::fresh(Host::none());
             if let Ok((_, bd)) = compile(&src, &mut data) {
@@ -436,13 +536,13 @@ impl Property for C06 {
         let s = spaces(tier);
         Meta {
             rule: format!(
-                "every program of the C01 corpora ({} + {} + {} + {} reapply-loop + {} call-nesting programs): static = worklist search of all abstract states (pc, operand depth, side-effect depth) reachable from the program entry and from every expression constant over the real instruction stream, invariants depth>=operand need, one depth per pc, EndExpression at depth exactly 1 outside side effects; dynamic = execution on SimpleGarnishData and BasicGarnishData with inputs 5 and (:a = 1, :b = 2), after every real step the observed operand/value/frame depths equal the abstract model's prediction and the run ends balanced; reapply loops iterate 0..4 times (T3) and as often as their guards allow (T4); a run that has not ended after 3 000 steps is not judged. Non-trivial = statically balanced program with at least one operator.",
-                s.t1.len(), s.t2.len(), s.t3.len(), s.t4.len(), s.t5.len()
+                "every program of the C01 corpora ({} + {} + {} + {} reapply-loop + {} call-nesting programs): static = worklist search of all abstract states (pc, operand depth, side-effect depth) reachable from the program entry and from every expression constant over the real instruction stream, invariants depth>=operand need, one depth per pc, EndExpression at depth exactly 1 outside side effects; dynamic = execution on SimpleGarnishData and BasicGarnishData with inputs 5 and (:a = 1, :b = 2), after every real step the observed operand/value/frame depths equal the abstract model's prediction and the run ends balanced; reapply loops iterate 0..4 times (T3) and as often as their guards allow (T4); a run that has not ended after 3 000 steps is not judged. The same two checks run on every input of the C03/C04 token corpora (K1 token-class sequences, K2 character strings, K4 small-scope tiers - up to length 5 in the quick tier, all of them in the thorough tier; {} inputs) that the pipeline accepts and that does not contain `;;` (input 5). Non-trivial = statically balanced program with at least one operator / accepted token input.",
+                s.t1.len(), s.t2.len(), s.t3.len(), s.t4.len(), s.t5.len(), text_total(tier)
             ),
             assumptions: vec![
                 "the abstract model is the stack-effect table in engine/src/props/c06.rs (DESIGN.md appendix B); it is bound to the code by step-wise conformance: traces_validated_against_impl counts executions in which every real step matched the table".into(),
                 "programs that do not compile or stop with a runtime error are counted, not judged (C01/C03/C07 judge them)".into(),
-                "programs using `;;` are not generated".into(),
+                "programs using `;;` are not generated; token-corpus inputs containing `;;` are excluded as the statement says".into(),
             ],
             trusted_base: vec!["stack-effect table (effect())".into(), "Subject::operand_depth / value_depth observers".into()],
             explanation: "explicit-state exploration of an abstract stack machine over real instruction streams, conformance-checked step by step against both implementations".into(),
